@@ -16,7 +16,8 @@ head = """# Seeded changes (each breaks the named property, compiles, passes the
 
 Every change was written by an independent sub-agent that saw only the property text and a scratch worktree (round 2, names
 ending in b: a source-file focus different from round 1; round 3, names ending in c: public wrappers and small files;
-round 4, names ending in d: bookkeeping outside the main algorithms - queues, weak references, count paths, Lazy plumbing);
+round 4, names ending in d: bookkeeping outside the main algorithms - queues, weak references, count paths, Lazy plumbing; round 5, names ending in e: C19/C20 without thread_local, wrappers' dependency declarations,
+what keeps listeners alive);
 confirmed with `tools/confirm_mutant.sh`; run with `tools/try_mutant.py` (quick tier). `detected by` lists the checks that
 raised a VIOLATION with the change applied to /repo (after strengthening, where the notes say so). `tools/run_seeded.sh`
 re-applies every change and runs the check of its own property: every line must say DETECTED.
